@@ -11,8 +11,6 @@ sys.path.insert(0, HERE)
 NOT_APPLICABLE = {
     'C32': 'PAINT fills exactly the region: a connectivity property of runtime bitmaps; the only-inside-the-viewport '
            'half is decided under C30; see DESIGN.md section 6',
-    'C43': 'session API value round trips are numeric/codepage value computations; out of reach of static analysis; '
-           'see DESIGN.md section 6',
 }
 PENDING = 'check not built yet in this revision (static rule designed in DESIGN.md section 4)'
 
